@@ -1112,15 +1112,19 @@ class Collocator:
             # should stay as a dimension name but without own labels. I.e. we
             # want to drop it. Because it still may a MultiIndex, we cannot
             # drop it directly but we have to set it to something different.
+            if main_coord_is_multiindex:
+                # A MultiIndex coordinate cannot be overwritten in place
+                # (xarray refuses to corrupt the index). Drop it together with
+                # its levels and add the stacked dimensions back to the
+                # dataset as ordinary variables:
+                output[name] = xr.merge([
+                    output[name].drop_vars(
+                        ["collocation", *stacked_dims_data.data_vars]),
+                    stacked_dims_data,
+                ])
+
             output[name]["collocation"] = \
                 np.arange(output[name]["collocation"].size)
-
-            if main_coord_is_multiindex:
-                # Now, since we unstacked the multi-index, we can add the
-                # stacked dimensions back to the dataset:
-                output[name] = xr.merge(
-                    [output[name], stacked_dims_data],
-                )
 
             # For the flattening we might have created temporal variables,
             # also collect them to drop:
